@@ -98,6 +98,7 @@ type runEnv struct {
 	entries []PoolEntry
 	naxes   []int
 	data    [][]byte
+	index   []int // face index of each entry in its file
 }
 
 func (e *runEnv) state() *gstate { return newState(e.pool, e.entries, e.naxes, e.data) }
@@ -154,13 +155,44 @@ func runAlone(p Program, e *runEnv) results {
 	n := len(p.Goroutines)
 	out := results{res: make([][][]byte, n), panics: make([][]string, n)}
 	runPrologue(p, e, &out)
+	largeParses := 0
 	for g, ops := range p.Goroutines {
 		if g > 0 && len(ops) > 0 && len(p.Goroutines[g-1]) == len(ops) && &p.Goroutines[g-1][0] == &ops[0] {
 			// the very same list as the previous goroutine (first-touch programs): same results
 			out.res[g], out.panics[g] = out.res[g-1], out.panics[g-1]
 			continue
 		}
-		st := e.state()
+		// A solitary run starts from a fresh state: the goroutine gets its OWN freshly parsed
+		// instances of the fonts it uses, so that whatever the library keeps per *font.Font
+		// (also process-wide, keyed by the font) is not shared with the concurrent run nor with
+		// the solitary runs of the other goroutines. Small files always; large files when the
+		// goroutine passes arguments of its own along with the font (descriptions, variations,
+		// ppem), for at most maxLargeFreshParses goroutines of a program.
+		pool := append([]*font.Font(nil), e.pool...)
+		used, keyed := map[int]bool{}, map[int]bool{}
+		for _, op := range ops {
+			used[op.F] = true
+			keyed[op.F] = keyed[op.F] || ownArguments(op)
+			for _, f := range op.Fonts {
+				used[f] = true
+			}
+		}
+		for f := range pool {
+			if !used[f] || f >= len(e.data) {
+				continue
+			}
+			large := len(e.data[f]) > bigFile
+			if large && (!keyed[f] || largeParses >= maxLargeFreshParses) {
+				continue
+			}
+			if ft, _, err := parseFont(e.data[f], e.index[f]); err == nil {
+				pool[f] = ft
+				if large {
+					largeParses++
+				}
+			}
+		}
+		st := newState(pool, e.entries, e.naxes, e.data)
 		res := make([][]byte, len(ops))
 		pan := make([]string, len(ops))
 		for i, op := range ops {
@@ -169,6 +201,22 @@ func runAlone(p Program, e *runEnv) results {
 		out.res[g], out.panics[g] = res, pan
 	}
 	return out
+}
+
+const maxLargeFreshParses = 8
+
+// ownArguments tells whether the operation passes arguments of the goroutine's own along with the
+// shared font into something the library might key by the font.
+func ownArguments(op Op) bool {
+	switch op.K {
+	case kFmAdd, kFmResolve, kFmSystem, kFmQuery, kSetVar:
+		return true
+	case kSplit:
+		return op.A == 1
+	case kProbe:
+		return len(op.V) > 0
+	}
+	return false
 }
 
 // maxDamagedLoadAlloc is the allocation above which loading a damaged variant is left to property
@@ -237,8 +285,8 @@ func checkProgram(t ev.TB, orig Program) {
 		return
 	}
 	n := len(orig.Pool)
-	shared := &runEnv{pool: make([]*font.Font, n), entries: orig.Pool, naxes: make([]int, n), data: make([][]byte, n)}
-	alone := &runEnv{pool: make([]*font.Font, n), entries: orig.Pool, naxes: shared.naxes, data: shared.data}
+	shared := &runEnv{pool: make([]*font.Font, n), entries: orig.Pool, naxes: make([]int, n), data: make([][]byte, n), index: make([]int, n)}
+	alone := &runEnv{pool: make([]*font.Font, n), entries: orig.Pool, naxes: shared.naxes, data: shared.data, index: shared.index}
 	for i, e := range orig.Pool {
 		pf, err := loadEntry(e)
 		if err != nil {
@@ -246,6 +294,7 @@ func checkProgram(t ev.TB, orig Program) {
 		}
 		shared.naxes[i] = len(pf.axes)
 		shared.data[i] = pf.data
+		shared.index[i] = pf.Index
 		alone.pool[i] = pf.ref
 		for j := 0; j < i; j++ {
 			if alone.pool[j] == pf.ref { // the same file twice (hand-written replays): distinct instances
@@ -359,6 +408,37 @@ func record(p Program) {
 		}
 	}
 	labels = append(labels, fmt.Sprintf("pool-size=%d", len(p.Pool)))
+	// arguments that differ ACROSS goroutines for the same shared font
+	differ := func(kind string, key func(op Op) string) bool {
+		first := map[int]string{}
+		for _, ops := range p.Goroutines {
+			mine := map[int]string{}
+			for _, op := range ops {
+				if op.K == kind {
+					if _, ok := mine[op.F]; !ok {
+						mine[op.F] = key(op)
+					}
+				}
+			}
+			for f, k := range mine {
+				if prev, ok := first[f]; ok && prev != k {
+					return true
+				} else if !ok {
+					first[f] = k
+				}
+			}
+		}
+		return false
+	}
+	if differ(kFmAdd, func(op Op) string { return fmt.Sprint(op.B, op.Fam, op.Style, op.Weight, op.Stretch) }) {
+		labels = append(labels, "same-font-registered-under-different-descriptions")
+	}
+	if differ(kSetVar, func(op Op) string { return fmt.Sprint(op.A, op.B, op.V) }) {
+		labels = append(labels, "same-font-with-different-variations-or-ppem")
+	}
+	if differ(kFmQuery, func(op Op) string { return fmt.Sprint(op.Fam, op.Style, op.Weight, op.Stretch, op.Script) }) {
+		labels = append(labels, "different-queries-across-goroutines")
+	}
 	if g := p.Goroutines; len(g) > 1 && len(g[0]) > 0 && g[0][0].K == kProbe || contains(kinds, kProbe) {
 		labels = append(labels, "centred-on-a-c13-class")
 		if g := p.Goroutines; len(g) > 1 && len(g[0]) > 0 && len(g[1]) > 0 && g[0][0].K == kProbe && g[1][0].K == kProbe {
@@ -701,11 +781,40 @@ func genOp(t *rapid.T, pool []*poolFont, kind string, f int) Op {
 	case kFmSystem:
 		op.R = genText(t, pf, []string{"latin"}, 3, false)
 	case kFmResolve:
+		if rapid.IntRange(0, 2).Draw(t, "findsystem") == 0 {
+			op.Fam = []string{rapid.SampledFrom(families[1:]).Draw(t, "sysfamily")}
+		}
 		op.R = genText(t, pf, []string{"latin"}, 6, true)
 		op.A = rapid.IntRange(0, 1).Draw(t, "forlang")
 		op.Lang = rapid.SampledFrom(langs).Draw(t, "lang")
 	}
 	return op
+}
+
+type persona struct {
+	family          string
+	style           int
+	weight, stretch float32
+	ppem            int
+}
+
+// apply gives the goroutine's own arguments to the operations that have some (three times out of four).
+func (me persona) apply(t *rapid.T, op *Op) {
+	switch op.K {
+	case kFmAdd:
+		if rapid.IntRange(0, 3).Draw(t, "owndescription") != 0 {
+			op.B = 1
+			op.Fam = nil
+			if me.family != "" {
+				op.Fam = []string{me.family}
+			}
+			op.Style, op.Weight, op.Stretch = me.style, me.weight, me.stretch
+		}
+	case kSetVar:
+		if rapid.IntRange(0, 3).Draw(t, "ownppem") != 0 {
+			op.A, op.B = me.ppem, me.ppem
+		}
+	}
 }
 
 // genPool draws the 3–5 shared fonts of a program: one candidate from each of as many different
@@ -865,6 +974,17 @@ func genProgram(t *rapid.T, cands [][]*poolFont) Program {
 	nsys := rapid.SampledFrom([]int{0, 0, 0, 2, 3, 4}).Draw(t, "systemfontmaps")
 	p.Goroutines = make([][]Op, n)
 	for g := range p.Goroutines {
+		// Every goroutine has its own way of describing and configuring the shared fonts: the
+		// description it registers them under in its font map (an instance of a variable font, a
+		// synthetic bold: family and aspect, fields possibly unset) and the ppem of its faces.
+		// Whatever the library keys by the shared font must not leak them to the others.
+		me := persona{
+			family:  rapid.SampledFrom(families).Draw(t, "myfamily"),
+			style:   rapid.IntRange(0, 2).Draw(t, "mystyle"),
+			weight:  float32(rapid.SampledFrom([]int{0, 100, 300, 400, 500, 700, 900}).Draw(t, "myweight")),
+			stretch: rapid.SampledFrom([]float32{0, 0.5, 0.75, 1, 1.25, 2}).Draw(t, "mystretch"),
+			ppem:    rapid.SampledFrom([]int{0, 0, 8, 9, 12, 16, 32, 128}).Draw(t, "myppem"),
+		}
 		// (rapid biases draws towards the lower bound: most goroutines get the full length)
 		k := maxOps - rapid.IntRange(0, maxOps-1).Draw(t, "fewerops")
 		ops := make([]Op, 0, k+1)
@@ -894,7 +1014,9 @@ func genProgram(t *rapid.T, cands [][]*poolFont) Program {
 			if (kind == kParse || kind == kParseDmg) && len(pool[f].data) > bigFile && rapid.IntRange(0, 3).Draw(t, "bigparse") != 0 {
 				kind = kOutline // loading a large file takes tens of milliseconds under -race: less often
 			}
-			ops = append(ops, genOp(t, pool, kind, f))
+			op := genOp(t, pool, kind, f)
+			me.apply(t, &op)
+			ops = append(ops, op)
 		}
 		if g < nsys {
 			// UseSystemFonts: in none or in several goroutines of a program, once each (a map
